@@ -82,8 +82,11 @@ class MessageAssembler:
             if self.transaction_label >= 0:
                 # We are already in a transaction
                 logger.warning("received START or SINGLE fragment while in transaction")
-                self.reset()
-                self.packets_received = 1
+
+            # This packet is the first one of a new message, whatever was received
+            # (or dropped) before it
+            self.reset()
+            self.packets_received = 1
 
             if packet_type == Protocol.PacketType.START:
                 self.number_of_packets = pdu[1]
